@@ -15,7 +15,25 @@ CHECKS = {
                 "Windows/Arduino/ESP/STM32 TRNG files are not buildable here and not covered.",
         "technique": "module-level effect/ownership census over LLVM IR (globals, imports, pointer escapes) + assembly section scan",
     },
+    "C20": {
+        "text": "Must-pass-through + value rules on the IR of the four free functions (N0 and -O3): on every path with a non-null state a wipe primitive is applied to the "
+                "parameter itself and the union of wiped byte ranges equals [0, sizeof(public type)) taken from DWARF; nothing writes the state after the wipe. tinyjambu_clean: "
+                "host configuration forwards (buf, size) unchanged to explicit_bzero on every path; the volatile fallback (built by shadowing config.h) is one loop whose SCEV "
+                "trip count is `size` with one unconditional volatile i8 0 store at {buf,+,1}; at -O3 the call / the volatile stores are still there.",
+        "note": "Trusted: explicit_bzero's contract; C's rule that volatile accesses are not added or removed. memset_s / SecureZeroMemory variants cannot be built here and are not covered. "
+                "gcc only via a relocation cross-check (thorough).",
+        "technique": "CFG must-pass-through and argument-provenance rules over LLVM IR + SCEV trip count, in two configurations and two optimisation levels",
+    },
+    "C17": {
+        "text": "(1) Contradiction rule over every indirect call of the module: a call through a value that the function null-tests must be unreachable from the null edge "
+                "(this found the pinned defect at prng.c:161, repaired by the fix: commit). (2) Finite-class abstract execution (D-FIN): the callback's return size is partitioned by the "
+                "constants it is compared with; init_user/reseed return 1 exactly for the class {32}; the request is for 32 bytes into a 32-byte field. (3) Under callback == NULL the first "
+                "request resolves (field values tracked along the path) to the function plain init passes. (4) Must-pass rules: on every path after the request, whatever it returned, V and C "
+                "are re-derived by hashes that absorbed the callback's buffer, counters are set, the stored callback is never NULL.",
+        "note": "Decides the control/data-flow shape that makes the statement true for every delivery pattern; does not compute hash values. Entropy quality is outside the property.",
+        "technique": "null-check contradiction rule + finite-class abstract execution over the CFG + must-pass-through dominance rules",
+    },
 }
 
 _NB = "not built yet in this session (design exists in DESIGN.md; claimed only once its check fires on broken variants and is silent on the unchanged tree)"
-NOT_APPLICABLE = {p: _NB for p in ["C01", "C02", "C03", "C04", "C05", "C06", "C07", "C08", "C09", "C10", "C11", "C12", "C13", "C14", "C15", "C16", "C17", "C18", "C20"]}
+NOT_APPLICABLE = {p: _NB for p in ["C01", "C02", "C03", "C04", "C05", "C06", "C07", "C08", "C09", "C10", "C11", "C12", "C13", "C14", "C15", "C16", "C18"]}
